@@ -104,7 +104,7 @@ Section Encoded.
     cfg_max_parameter cfg <= 14 -> In bps [8; 12; 16; 20; 24] -> rate < 2 ^ 32 -> 1 <= channels <= 8 -> fi < 2 ^ 31 ->
     (1 <= n)%nat -> N.of_nat n <= c_MAX_BLOCK_SIZE -> length b = (n * N.to_nat channels)%nat ->
     block_hyps qlpc cfg fi channels bps b n -> samples_ok bps b = true ->
-    frame_canon channels bps f /\ frame_size_field f < 2 ^ 24.
+    frame_canon channels bps f /\ frame_size_field f < 2 ^ 24 /\ frame_count_bits f / 8 < 2 ^ 24.
   Proof.
     intros E Hmp Hbps Hrate Hch Hfi Hn1 Hn Hlen Hblk Hso.
     destruct (samples_ok_chans bps channels b Hbps Hso) as [Hbound Hrange].
@@ -141,7 +141,7 @@ Section Encoded.
       unfold frame_size_field.
       assert (frame_count_bits f / 8 <= 786434).
       { apply N.lt_succ_r. apply N.div_lt_upper_bound; lia. }
-      rewrite N.mod_small by (change (2 ^ 32) with 4294967296; lia). change (2 ^ 24) with 16777216. lia.
+      rewrite N.mod_small by (change (2 ^ 32) with 4294967296; lia). change (2 ^ 24) with 16777216. split; lia.
   Qed.
 
   Lemma encoded_frame_verifies cfg rate channels bps fi b f n :
@@ -187,7 +187,7 @@ Section Encoded.
     forall blocks fi frames,
     encode_blocks ent qlpc cfg rate channels bps fi blocks = Ok frames ->
     blocks_hyps qlpc cfg channels bps fi blocks ->
-    Forall (fun f => frame_canon channels bps f /\ frame_size_field f < 2 ^ 24) frames.
+    Forall (fun f => frame_canon channels bps f /\ frame_size_field f < 2 ^ 24 /\ frame_count_bits f / 8 < 2 ^ 24) frames.
   Proof.
     intros Hmp Hbps Hrate Hch. induction blocks as [|b br IH]; intros fi frames E Hh.
     - cbn [encode_blocks] in E. apply Ok_inj in E. subst frames. constructor.
